@@ -231,6 +231,18 @@ def genall_c02(info):
     gen_C02(info)
 
 
+def gen_C08(info):
+    """published amounts (Spec/Statutory.lean mirror of tools/c08_statutory.json) x sites in the
+    translated programs -> Gen/C08_<year>_<k>.lean"""
+    if _gen_tool(info, 'gen_c08.py', 'c08'):
+        _load_gen_json(info, 'c08')
+    info['extra_targets'] += ['HabuVerif.Gen.C08']
+
+
+def genall_c08(info):
+    gen_C08(info)
+
+
 def generate_all():
     """used by setup: everything that `lake build` of the whole library needs"""
     info = {'extra_targets': [], 'failed': []}
